@@ -84,7 +84,9 @@ def assemble(pre, blocks, sep='\n'):
 
 
 COMMENTS = ['# a comment', '#', '   # indented comment', '', '   ', '\t', '# [Not A Section]', '# match: contains("X")', '#filter: true',
-            '# was:\x0ccategory: Sports', '# note\u2028[Ghost]', '# nel\x85filter: false', '# fs\x1cmatch: true']
+            '# was:\x0ccategory: Sports', '# note\u2028[Ghost]', '# nel\x85filter: false', '# fs\x1cmatch: true',
+            # a comment that ends in a backslash (a Windows path): the next line is a line of its own
+            '# exported from C:\\budget\\views\\', '# continued \\']
 
 
 def edit(pre, blocks, rnd, merchants):
@@ -143,9 +145,12 @@ def corrupt_merchants(pre, blocks, rnd):
     i = rnd.randrange(len(blocks))
     b = blocks[i]
     cls = rnd.choice(['no-match', 'unknown-property', 'bad-let', 'bad-field', 'bad-priority', 'bad-match-expr', 'bad-let-expr', 'bad-field-expr',
-                      'no-category-no-tags', 'empty-name', 'garbage-line', 'bad-toplevel-var', 'bad-toplevel-transform', 'unsafe-match-expr'])
+                      'no-category-no-tags', 'empty-name', 'garbage-line', 'bad-toplevel-var', 'bad-toplevel-transform', 'unsafe-match-expr', 'header-only'])
     whole_file = False
-    if cls == 'no-match':
+    if cls == 'header-only':
+        # the body of a rule was commented out (or deleted), its header stayed: a section without a single property
+        b[:] = [b[0]] + rnd.choice([[], ['# ' + l for l in b[1:]], ['', '# nothing yet']])
+    elif cls == 'no-match':
         b[:] = [l for l in b if not l.lower().startswith('match:')]
     elif cls == 'unknown-property':
         b.insert(rnd.randint(1, len(b)), rnd.choice(['colour: red', 'catgory: Food', 'matches: contains("X")', 'tag: x', 'note: hello', 'sub: x', 'cat: Food', 'categor: Food', 'Merch: X',
